@@ -11,6 +11,10 @@ table length) takes a fuel argument that decreases by one per call / iteration, 
 bounds the length of the longest chain of nested calls and loop iterations — the quantity the
 "no stack overflow, no hang" part of C12 is about.
 
+Style: the functions are written without early `return`, `let mut` or `for` (nested `if … else`,
+explicit helper functions for loop bodies) so that `Proof/AmlParser.lean` can reason about them
+compositionally; the behaviour is that of the Go statements in the same order.
+
 The code modelled is the tree *after* the repairs of this round (relocation into the own subtree
 refused; Connection buffer bounded by its package; `attachSiblingsAsArgs` detaches from the real
 parent; MultiNamePath length in 32 bits; prefix+NullName keeps its prefix; a strict TermArg is
@@ -107,6 +111,18 @@ def scopeEnter (index : Nat) : P Unit := modify fun s => { s with scopeStack := 
 def scopeExit : P Unit := fun s =>
   if s.scopeStack.size = 0 then throw .panic else pure ((), { s with scopeStack := s.scopeStack.pop })
 
+/-- `p.pkgEndStack[len-1]` if the stack is not empty -/
+def pkgEndTop : P (Option Nat) := fun s => pure (s.pkgEndStack.back?, s)
+
+/-- sizes of the two stacks -/
+def stackSizes : P (Nat × Nat) := fun s => pure ((s.pkgEndStack.size, s.scopeStack.size), s)
+
+/-- the reader (field reads `p.r.offset`, `p.r.pkgEnd`) -/
+def reader : P Reader := fun s => pure (s.r, s)
+
+/-- `p.objTree` for read-only queries -/
+def getTree : P ObjectTree := fun s => pure (s.tree, s)
+
 /-- `pushPkgEnd(pkgEnd) error` — `true` = nil -/
 def pushPkgEnd (d : Bytes) (pkgEnd : Nat) : P Bool := do
   modify fun s => { s with pkgEndStack := s.pkgEndStack.push pkgEnd }
@@ -114,8 +130,10 @@ def pushPkgEnd (d : Bytes) (pkgEnd : Nat) : P Bool := do
 
 def popPkgEnd (d : Bytes) : P Unit := do
   modify fun s => if s.pkgEndStack.size ≠ 0 then { s with pkgEndStack := s.pkgEndStack.pop } else s
-  match (← get).pkgEndStack.back? with
-  | some e => let _ ← lex (setPkgEnd d e)
+  match (← pkgEndTop) with
+  | some e => do
+    let _ ← lex (setPkgEnd d e)
+    pure ()
   | none => pure ()
 
 /-- the bytes of a `[]byte` value (`none`: the value is not a `[]byte`) -/
@@ -130,35 +148,55 @@ def parseByteList (d : Bytes) (obj dataLen : Nat) : P Unit := do
   let sl ← lex (parseByteListRaw d dataLen)
   updObj obj fun o => { o with value := sliceVal sl }
 
+/-- the numeric cases of `parseSimpleArg` / `parseObjectArgs`: `obj.value, res = parseNumConstant(n)` -/
+def setNumValue (d : Bytes) (obj n : Nat) : P PRes := do
+  let vr ← lex (parseNumConstant d n)
+  updObj obj fun o => { o with value := .u64 vr.1 }
+  pure vr.2
+
+/-- `obj.value, res = parseString()` -/
+def setStringValue (d : Bytes) (obj : Nat) : P PRes := do
+  let sr ← lex (parseString d)
+  updObj obj fun o => { o with value := sliceVal sr.1 }
+  pure sr.2
+
+/-- `obj.value, res = parseNameString()` -/
+def setNameValue (d : Bytes) (obj : Nat) : P PRes := do
+  let sr ← lex (parseNameString d)
+  updObj obj fun o => { o with value := sliceVal sr.1 }
+  pure sr.2
+
+/-- `obj.opcode = op` -/
+def setOpcode (obj op : Nat) : P Unit := updObj obj fun o => { o with opcode := op }
+
 /-- `parseSimpleArg(argType)` -/
 def parseSimpleArg (d : Bytes) (argType : Nat) : P (Option Nat × PRes) := do
   let obj ← newObject 0
   let off ← lex offset
   updObj obj fun o => { o with amlOffset := off }
-  let num (op n : Nat) : P PRes := do
-    updObj obj fun o => { o with opcode := op }
-    let (v, res) ← lex (parseNumConstant d n)
-    updObj obj fun o => { o with value := .u64 v }
-    pure res
-  let res ←
-    if argType = argTypeByteData then num opBytePrefix 1
-    else if argType = argTypeWordData then num opWordPrefix 2
-    else if argType = argTypeDwordData then num opDwordPrefix 4
-    else if argType = argTypeQwordData then num opQwordPrefix 8
-    else if argType = argTypeString then do
-      updObj obj fun o => { o with opcode := opStringPrefix }
-      let (sl, res) ← lex (parseString d)
-      updObj obj fun o => { o with value := sliceVal sl }
-      pure res
-    else if argType = argTypeNameString then do
-      updObj obj fun o => { o with opcode := opIntNamePath }
-      let (sl, res) ← lex (parseNameString d)
-      updObj obj fun o => { o with value := sliceVal sl }
-      pure res
-    else return (none, .failed)
-  let o ← getObj obj
-  updObj obj fun o' => { o' with infoIndex := pOpcodeTableIndex o.opcode true }
-  return (some obj, res)
+  let finish (res : PRes) : P (Option Nat × PRes) := do
+    let o ← getObj obj
+    updObj obj fun o' => { o' with infoIndex := pOpcodeTableIndex o.opcode true }
+    pure (some obj, res)
+  if argType = argTypeByteData then do
+    setOpcode obj opBytePrefix
+    finish (← setNumValue d obj 1)
+  else if argType = argTypeWordData then do
+    setOpcode obj opWordPrefix
+    finish (← setNumValue d obj 2)
+  else if argType = argTypeDwordData then do
+    setOpcode obj opDwordPrefix
+    finish (← setNumValue d obj 4)
+  else if argType = argTypeQwordData then do
+    setOpcode obj opQwordPrefix
+    finish (← setNumValue d obj 8)
+  else if argType = argTypeString then do
+    setOpcode obj opStringPrefix
+    finish (← setStringValue d obj)
+  else if argType = argTypeNameString then do
+    setOpcode obj opIntNamePath
+    finish (← setNameValue d obj)
+  else pure (none, .failed)
 
 /-- loop state of `parseFieldElements` -/
 structure FieldSt where
@@ -171,117 +209,208 @@ structure FieldSt where
   appendAfter : Nat := 0
   connectionIndex : Nat := invalidIndex
 
+/-- `field.name[i] = b` -/
+def setNameByte (field i : Nat) (b : UInt8) : P Unit :=
+  updObj field fun o => { o with name := Name.ofList ((o.name.toList.take i) ++ [b] ++ (o.name.toList.drop (i+1))) }
+
 /-- the `for i := 0; i < amlNameLen; i++ { field.name[i], err = ReadByte() }` loop -/
 def readFieldName (d : Bytes) (field : Nat) : Nat → Nat → P Bool
   | 0, _ => pure true
   | n+1, i => do
     match ← lex (readByte d) with
-    | none =>
-      updObj field fun o => { o with name := Name.ofList ((o.name.toList.take i) ++ [0] ++ (o.name.toList.drop (i+1))) }
-      return false
-    | some b =>
-      updObj field fun o => { o with name := Name.ofList ((o.name.toList.take i) ++ [b] ++ (o.name.toList.drop (i+1))) }
+    | none => do
+      setNameByte field i 0
+      pure false
+    | some b => do
+      setNameByte field i b
       readFieldName d field n (i+1)
 
-/-- the body of the `for !p.r.EOF()` loop of `parseFieldElements`; fuel = table length + 1 (every
-iteration reads at least one byte) -/
+/-- result of one iteration of the field-list loop: `.inl res` = `return res`, `.inr st` = next iteration -/
+abbrev FieldStep := Sum PRes FieldSt
+
+/-- `case 0x00: // ReservedField` -/
+def fieldReserved (d : Bytes) (st : FieldSt) : P FieldStep := do
+  let pr ← lex (parsePkgLength d)
+  if pr.2 = .failed then pure (.inl .failed)
+  else pure (.inr { st with nextFieldOffset := u32 (st.nextFieldOffset + pr.1) })
+
+/-- `case 0x01: // AccessField` -/
+def fieldAccess (d : Bytes) (st : FieldSt) : P FieldStep := do
+  let v1 ← lex (parseNumConstant d 1)
+  if v1.2 = .failed then pure (.inl v1.2) else do
+  let v2 ← lex (parseNumConstant d 1)
+  if v2.2 = .failed then pure (.inl v2.2)
+  else pure (.inr { st with accessType := v1.1 % 256, accessAttrib := v2.1 % 256 })
+
+/-- `case 0x03: // ExtAccessField` -/
+def fieldExtAccess (d : Bytes) (st : FieldSt) : P FieldStep := do
+  let v1 ← lex (parseNumConstant d 1)
+  if v1.2 = .failed then pure (.inl v1.2) else do
+  let v2 ← lex (parseNumConstant d 1)
+  if v2.2 = .failed then pure (.inl v2.2) else do
+  let v3 ← lex (parseNumConstant d 1)
+  if v3.2 = .failed then pure (.inl v3.2)
+  else pure (.inr { st with accessType := v1.1 % 256, accessAttrib := v2.1 % 256, accessLength := v3.1 % 256 })
+
+/-- "Read data length" of a Connection buffer (`pkgLen > 0`): `.inl res` = `return res` -/
+def connBufferLen (d : Bytes) (origOffset pkgLen : Nat) : P (Sum PRes Nat) := do
+  if !(← lex (setPkgEnd d (u32 (origOffset + pkgLen)))) then pure (.inl .failed) else do
+  let opr ← lex (nextOpcode d)
+  if opr.2 ≠ .ok then pure (.inl opr.2) else do
+  let dl ←
+    if opr.1 = opBytePrefix then lex (parseNumConstant d 1)
+    else if opr.1 = opWordPrefix then lex (parseNumConstant d 2)
+    else if opr.1 = opDwordPrefix then lex (parseNumConstant d 4)
+    else pure (0, PRes.ok)
+  if dl.2 = .failed then pure (.inl dl.2) else pure (.inr dl.1)
+
+/-- the tail of the Connection-buffer case once `dataLen` is known: bound check (repair), the byte
+list object, restoring the package end and skipping the buffer; `.inr connArg` -/
+def connBufferFinish (d : Bytes) (origPkgEnd origOffset pkgLen dataLen : Nat) : P (Sum PRes Nat) := do
+  let r ← reader
+  if r.offset + dataLen > r.pkgEnd then pure (.inl .failed) else do
+  let connArg ← newObject opIntByteList
+  updObj connArg fun o => { o with amlOffset := origOffset }
+  parseByteList d connArg (u32 dataLen)
+  let _ ← lex (setPkgEnd d origPkgEnd)
+  lex (setOffset d (u32 (origOffset + pkgLen)))
+  pure (.inr connArg)
+
+/-- `case uint8(pOpBuffer):` of a Connection -/
+def connBuffer (d : Bytes) : P (Sum PRes Nat) := do
+  let r ← reader
+  let pr ← lex (parsePkgLength d)
+  if pr.2 ≠ .ok then pure (.inl pr.2)
+  else if pr.1 > 0 then do
+    match ← connBufferLen d r.offset pr.1 with
+    | .inl res => pure (.inl res)
+    | .inr dataLen => connBufferFinish d r.pkgEnd r.offset pr.1 dataLen
+  else connBufferFinish d r.pkgEnd r.offset pr.1 0
+
+/-- `default:` of a Connection: a namestring -/
+def connName (d : Bytes) : P (Sum PRes Nat) := do
+  let _ ← lex unreadByte
+  let connArg ← newObject opIntNamePath
+  let off ← lex offset
+  updObj connArg fun o => { o with amlOffset := off }
+  let res ← setNameValue d connArg
+  if res ≠ .ok then pure (.inl res) else pure (.inr connArg)
+
+/-- `case 0x02: // Connection` -/
+def fieldConnection (d : Bytes) (curObj : Nat) (st : FieldSt) : P FieldStep := do
+  match ← lex (readByte d) with
+  | none => pure (.inl .failed)
+  | some next2 => do
+    let connection ← newObject opIntConnection
+    let connectionIndex := (← getObj connection).index
+    tree (·.append curObj connection)
+    match ← (if next2.toNat = opBuffer then connBuffer d else connName d) with
+    | .inl res => pure (.inl res)
+    | .inr connArg => do
+      tree (·.append connection connArg)
+      pure (.inr { st with connectionIndex := connectionIndex })
+
+/-- `default:` a named field -/
+def fieldNamed (d : Bytes) (curObj : Nat) (st : FieldSt) : P FieldStep := do
+  let _ ← lex unreadByte
+  let field ← newObject opIntNamedField
+  let off ← lex offset
+  updObj field fun o => { o with amlOffset := off }
+  if !(← readFieldName d field amlNameLen 0) then pure (.inl .failed) else do
+  let pr ← lex (parsePkgLength d)
+  if pr.2 ≠ .ok then pure (.inl pr.2) else do
+  let co ← getObj curObj
+  let fe : Val := .field st.nextFieldOffset pr.1 st.accessLength st.accessType
+    st.accessAttrib st.lockType st.updateType st.connectionIndex co.index
+  updObj field fun o => { o with value := fe }
+  let parent ← derefP (← objectAt co.parentIndex)
+  tree (·.appendAfter parent field st.appendAfter)
+  pure (.inr { st with appendAfter := field, nextFieldOffset := u32 (st.nextFieldOffset + pr.1) })
+
+/-- one iteration of the `for !p.r.EOF()` loop of `parseFieldElements` (after the EOF test) -/
+def fieldStep (d : Bytes) (curObj : Nat) (st : FieldSt) : P FieldStep := do
+  let next := ((← lex (readByte d)).getD 0).toNat
+  if next = 0x00 then fieldReserved d st
+  else if next = 0x01 then fieldAccess d st
+  else if next = 0x03 then fieldExtAccess d st
+  else if next = 0x02 then fieldConnection d curObj st
+  else fieldNamed d curObj st
+
+/-- the `for !p.r.EOF()` loop of `parseFieldElements`; fuel = table length + 1 (every iteration reads
+at least one byte) -/
 def fieldLoop (d : Bytes) (curObj : Nat) : Nat → FieldSt → P PRes
   | 0, _ => throw .outOfFuel
   | f+1, st => do
-    if (← lex eof) then return .shortCircuit
-    let next := ((← lex (readByte d)).getD 0).toNat
-    if next = 0x00 then
-      let (pkgLen, res) ← lex (parsePkgLength d)
-      if res = .failed then return .failed
-      fieldLoop d curObj f { st with nextFieldOffset := u32 (st.nextFieldOffset + pkgLen) }
-    else if next = 0x01 then
-      let (v1, res) ← lex (parseNumConstant d 1)
-      if res = .failed then return res
-      let (v2, res) ← lex (parseNumConstant d 1)
-      if res = .failed then return res
-      fieldLoop d curObj f { st with accessType := v1 % 256, accessAttrib := v2 % 256 }
-    else if next = 0x03 then
-      let (v1, res) ← lex (parseNumConstant d 1)
-      if res = .failed then return res
-      let (v2, res) ← lex (parseNumConstant d 1)
-      if res = .failed then return res
-      let (v3, res) ← lex (parseNumConstant d 1)
-      if res = .failed then return res
-      fieldLoop d curObj f { st with accessType := v1 % 256, accessAttrib := v2 % 256, accessLength := v3 % 256 }
-    else if next = 0x02 then
-      match ← lex (readByte d) with
-      | none => return .failed
-      | some next2 =>
-        let connection ← newObject opIntConnection
-        let connectionIndex := (← getObj connection).index
-        tree (·.append curObj connection)
-        let connArg ←
-          if next2.toNat = opBuffer then do
-            let r ← lex (fun r => pure (r, r))
-            let origPkgEnd := r.pkgEnd
-            let origOffset := r.offset
-            let (pkgLen, res) ← lex (parsePkgLength d)
-            if res ≠ .ok then return res
-            let mut dataLen := 0
-            if pkgLen > 0 then
-              if !(← lex (setPkgEnd d (u32 (origOffset + pkgLen)))) then return .failed
-              let (nextOp, res) ← lex (nextOpcode d)
-              if res ≠ .ok then return res
-              let (dl, res) ←
-                if nextOp = opBytePrefix then lex (parseNumConstant d 1)
-                else if nextOp = opWordPrefix then lex (parseNumConstant d 2)
-                else if nextOp = opDwordPrefix then lex (parseNumConstant d 4)
-                else pure (0, PRes.ok)
-              dataLen := dl
-              if res = .failed then return res
-            let r ← lex (fun r => pure (r, r))
-            if r.offset + dataLen > r.pkgEnd then return .failed
-            let connArg ← newObject opIntByteList
-            updObj connArg fun o => { o with amlOffset := origOffset }
-            parseByteList d connArg (u32 dataLen)
-            let _ ← lex (setPkgEnd d origPkgEnd)
-            lex (setOffset d (u32 (origOffset + pkgLen)))
-            pure connArg
-          else do
-            let _ ← lex unreadByte
-            let connArg ← newObject opIntNamePath
-            let off ← lex offset
-            updObj connArg fun o => { o with amlOffset := off }
-            let (sl, res) ← lex (parseNameString d)
-            updObj connArg fun o => { o with value := sliceVal sl }
-            if res ≠ .ok then return res
-            pure connArg
-        tree (·.append connection connArg)
-        fieldLoop d curObj f { st with connectionIndex := connectionIndex }
-    else
-      let _ ← lex unreadByte
-      let field ← newObject opIntNamedField
-      let off ← lex offset
-      updObj field fun o => { o with amlOffset := off }
-      if !(← readFieldName d field amlNameLen 0) then return .failed
-      let (pkgLen, res) ← lex (parsePkgLength d)
-      if res ≠ .ok then return res
-      let co ← getObj curObj
-      let fe : Val := .field st.nextFieldOffset pkgLen st.accessLength st.accessType
-        st.accessAttrib st.lockType st.updateType st.connectionIndex co.index
-      updObj field fun o => { o with value := fe }
-      let parent ← derefP (← objectAt co.parentIndex)
-      tree (·.appendAfter parent field st.appendAfter)
-      fieldLoop d curObj f { st with appendAfter := field, nextFieldOffset := u32 (st.nextFieldOffset + pkgLen) }
+    if (← lex eof) then pure .shortCircuit else do
+    match ← fieldStep d curObj st with
+    | .inl res => pure res
+    | .inr st' => fieldLoop d curObj f st'
+
+/-- `x.value.(uint64)` (panicking type assertion) -/
+def u64Value (i : Nat) : P Nat := do
+  match (← getObj i).value with
+  | .u64 v => pure v
+  | _ => throw .panic
 
 /-- `parseFieldElements(curObj)` -/
 def parseFieldElements (d : Bytes) (curObj : Nat) : P PRes := do
   let co ← getObj curObj
   let last ← derefP (← objectAt co.lastArgIndex)
-  let initialFlags ← match (← getObj last).value with
-    | .u64 v => pure (v % 256)
-    | _ => throw .panic
+  let initialFlags := (← u64Value last) % 256
   fieldLoop d curObj (d.size + 1)
     { accessType := initialFlags &&& 0xf, lockType := (initialFlags >>> 4) &&& 0x1,
       updateType := (initialFlags >>> 5) &&& 0x3, appendAfter := curObj }
 
 /-- `ClosestNamedAncestor` with the generated opcode table -/
 def namedInfo (i : Nat) : Option Bool := (opFlags i).map fun fl => hasFlag fl flagNamed
+
+/-- the bytes of the path expression `parseNameString` returned -/
+def sliceExpr (d : Bytes) (sl : Slice) : List UInt8 :=
+  match sl.data with
+  | some off => sliceBytes d off sl.len
+  | none => []
+
+/-- first-pass branch of `parseNamePathOrMethodCall`: a `pOpIntNamePathOrMethodCall` object -/
+def namePathOrCallObject (curOffset : Nat) (pathExpr : Slice) : P PRes := do
+  let curObj ← newObject opIntNamePathOrMethodCall
+  updObj curObj fun o => { o with amlOffset := curOffset }
+  updObj curObj fun o => { o with value := sliceVal pathExpr }
+  let sc ← derefP (← scopeCurrent)
+  tree (·.append sc curObj)
+  pure .ok
+
+/-- the simple argument kinds -/
+def isSimpleArg (argType : Nat) : Bool :=
+  argType = argTypeByteData ∨ argType = argTypeWordData ∨ argType = argTypeDwordData ∨
+  argType = argTypeQwordData ∨ argType = argTypeString ∨ argType = argTypeNameString
+
+/-- `case pArgTypeByteList:` -/
+def parseByteListArg (d : Bytes) : P (Option Nat × PRes) := do
+  let argObj ← newObject opIntByteList
+  let r ← reader
+  parseByteList d argObj (u32 (r.pkgEnd + 4294967296 - r.offset))
+  pure (some argObj, .ok)
+
+/-- `case pArgTypePkgLen:` -/
+def parsePkgLenArg (d : Bytes) (info curObj : Nat) : P (Option Nat × PRes) := do
+  let origOffset ← lex offset
+  let pr ← lex (parsePkgLength d)
+  if pr.2 ≠ .ok then pure (none, pr.2) else do
+  let flags ← optP (opFlags info)
+  if !(← allBlocks) ∧ hasFlag flags flagDeferParsing then do
+    updObj curObj fun o => { o with pkgEnd := u32 (origOffset + pr.1) }
+    lex (setOffset d (u32 (origOffset + pr.1)))
+    pure (none, .shortCircuit)
+  else if !(← pushPkgEnd d (u32 (origOffset + pr.1))) then pure (none, .failed)
+  else pure (none, .ok)
+
+/-- the part of `case pArgTypeTermList:` common to both modes: the new scope block is entered -/
+def newScopeBlock : P Nat := do
+  let scope ← newObject opIntScopeBlock
+  let off ← lex offset
+  updObj scope fun o => { o with amlOffset := off }
+  scopeEnter (← getObj scope).index
+  pure scope
 
 mutual
 
@@ -290,197 +419,168 @@ def parseNextObject (d : Bytes) : Nat → P PRes
   | 0 => throw .outOfFuel
   | f+1 => do
     let curOffset ← lex offset
-    let (nextOp, res) ← lex (nextOpcode d)
-    if nextOp = opNoop then return .ok
-    if res = .failed then return ← parseNamePathOrMethodCall d f
-    let curObj ← newObject nextOp
-    updObj curObj fun o => { o with amlOffset := curOffset }
-    let sc ← derefP (← scopeCurrent)
-    tree (·.append sc curObj)
-    parseObjectArgs d f curObj
+    let opr ← lex (nextOpcode d)
+    if opr.1 = opNoop then pure .ok
+    else if opr.2 = .failed then parseNamePathOrMethodCall d f
+    else do
+      let curObj ← newObject opr.1
+      updObj curObj fun o => { o with amlOffset := curOffset }
+      let sc ← derefP (← scopeCurrent)
+      tree (·.append sc curObj)
+      parseObjectArgs d f curObj
 
 /-- `parseObjectArgs(curObj)` -/
 def parseObjectArgs (d : Bytes) : Nat → Nat → P PRes
   | 0, _ => throw .outOfFuel
   | f+1, curObj => do
     let o ← getObj curObj
-    let num (n : Nat) : P PRes := do
-      let (v, res) ← lex (parseNumConstant d n)
-      updObj curObj fun o => { o with value := .u64 v }
-      pure res
     let res ←
-      if o.opcode = opBytePrefix then num 1
-      else if o.opcode = opWordPrefix then num 2
-      else if o.opcode = opDwordPrefix then num 4
-      else if o.opcode = opQwordPrefix then num 8
-      else if o.opcode = opStringPrefix then do
-        let (sl, res) ← lex (parseString d)
-        updObj curObj fun o => { o with value := sliceVal sl }
-        pure res
+      if o.opcode = opBytePrefix then setNumValue d curObj 1
+      else if o.opcode = opWordPrefix then setNumValue d curObj 2
+      else if o.opcode = opDwordPrefix then setNumValue d curObj 4
+      else if o.opcode = opQwordPrefix then setNumValue d curObj 8
+      else if o.opcode = opStringPrefix then setStringValue d curObj
       else do
         let _ ← optP (opFlags o.infoIndex)
         parseArgs d f o.infoIndex curObj 0
-    return if res = .shortCircuit then .ok else res
+    pure (if res = .shortCircuit then .ok else res)
 
 /-- the argument loop of `parseArgs(info, curObj, argOffset)` from `argIndex` -/
 def parseArgs (d : Bytes) : Nat → Nat → Nat → Nat → P PRes
   | 0, _, _, _ => throw .outOfFuel
   | f+1, info, curObj, argIndex => do
     let argCount ← optP (opArgCount info)
-    if argIndex < argCount then
-      let (argObj, res) ← parseArg d f info curObj (← optP (opArg info argIndex))
-      match argObj with
+    if argIndex < argCount then do
+      let ar ← parseArg d f info curObj (← optP (opArg info argIndex))
+      match ar.1 with
       | some a => tree (·.append curObj a)
       | none => pure ()
-      if res = .ok then parseArgs d f info curObj (argIndex + 1) else return res
-    else return .ok
+      if ar.2 = .ok then parseArgs d f info curObj (argIndex + 1) else pure ar.2
+    else pure .ok
 
 /-- `parseArg(info, curObj, argType)` -/
 def parseArg (d : Bytes) : Nat → Nat → Nat → Nat → P (Option Nat × PRes)
   | 0, _, _, _ => throw .outOfFuel
   | f+1, info, curObj, argType => do
-    if argType = argTypeByteData ∨ argType = argTypeWordData ∨ argType = argTypeDwordData ∨
-       argType = argTypeQwordData ∨ argType = argTypeString ∨ argType = argTypeNameString then
-      parseSimpleArg d argType
-    else if argType = argTypeByteList then
-      let argObj ← newObject opIntByteList
-      let r ← lex (fun r => pure (r, r))
-      parseByteList d argObj (u32 (r.pkgEnd + 4294967296 - r.offset))
-      return (some argObj, .ok)
-    else if argType = argTypePkgLen then
-      let origOffset ← lex offset
-      let (pkgLen, res) ← lex (parsePkgLength d)
-      if res ≠ .ok then return (none, res)
-      let flags ← optP (opFlags info)
-      if !(← allBlocks) ∧ hasFlag flags flagDeferParsing then
-        updObj curObj fun o => { o with pkgEnd := u32 (origOffset + pkgLen) }
-        lex (setOffset d (u32 (origOffset + pkgLen)))
-        return (none, .shortCircuit)
-      if !(← pushPkgEnd d (u32 (origOffset + pkgLen))) then return (none, .failed)
-      return (none, .ok)
-    else if argType = argTypeFieldList then
-      return (none, ← parseFieldElements d curObj)
-    else if argType = argTypeTermArg ∨ argType = argTypeDataRefObj then
-      if (← allBlocks) then parseStrictTermArg d f curObj else return (none, .shortCircuit)
-    else if argType = argTypeTermList then
-      let scope ← newObject opIntScopeBlock
-      let off ← lex offset
-      updObj scope fun o => { o with amlOffset := off }
-      scopeEnter (← getObj scope).index
-      if !(← allBlocks) then return (some scope, .shortCircuit)
+    if isSimpleArg argType then parseSimpleArg d argType
+    else if argType = argTypeByteList then parseByteListArg d
+    else if argType = argTypePkgLen then parsePkgLenArg d info curObj
+    else if argType = argTypeFieldList then do
+      let res ← parseFieldElements d curObj
+      pure (none, res)
+    else if argType = argTypeTermArg ∨ argType = argTypeDataRefObj then do
+      if (← allBlocks) then parseStrictTermArg d f curObj else pure (none, .shortCircuit)
+    else if argType = argTypeTermList then do
+      let scope ← newScopeBlock
+      if !(← allBlocks) then pure (some scope, .shortCircuit) else do
       tree (·.append curObj scope)
-      if !(← termListLoop d f) then return (none, .failed)
+      if !(← termListLoop d f) then pure (none, .failed) else do
       scopeExit
       tree (·.detach curObj scope)
-      return (some scope, .ok)
+      pure (some scope, .ok)
     else parseTarget d f
 
 /-- `for !p.r.EOF() { if p.parseNextObject() != parseResultOk { return failed } }` — `false` = failed -/
 def termListLoop (d : Bytes) : Nat → P Bool
   | 0 => throw .outOfFuel
   | f+1 => do
-    if (← lex eof) then return true
-    if (← parseNextObject d f) ≠ .ok then return false
-    termListLoop d f
+    if (← lex eof) then pure true
+    else if (← parseNextObject d f) ≠ .ok then pure false
+    else termListLoop d f
 
 /-- `parseNamePathOrMethodCall()` -/
 def parseNamePathOrMethodCall (d : Bytes) : Nat → P PRes
   | 0 => throw .outOfFuel
   | f+1 => do
     let curOffset ← lex offset
-    let (pathExpr, res) ← lex (parseNameString d)
-    if res ≠ .ok then return .failed
-    if !(← allBlocks) then
-      let curObj ← newObject opIntNamePathOrMethodCall
+    let sr ← lex (parseNameString d)
+    if sr.2 ≠ .ok then pure .failed
+    else if !(← allBlocks) then namePathOrCallObject curOffset sr.1
+    else do
+      let sc ← scopeCurrent
+      let t ← getTree
+      let anc ← liftR (t.ClosestNamedAncestor namedInfo sc)
+      let targetIndex ← liftR (t.Find anc (sliceExpr d sr.1))
+      if targetIndex = invalidIndex then pure .failed else do
+      let target ← objectAt targetIndex
+      let curObj ← newObject opIntResolvedNamePath
       updObj curObj fun o => { o with amlOffset := curOffset }
-      updObj curObj fun o => { o with value := sliceVal pathExpr }
+      updObj curObj fun o => { o with value := .idx targetIndex }
       let sc ← derefP (← scopeCurrent)
       tree (·.append sc curObj)
-      return .ok
-    let sc ← scopeCurrent
-    let t := (← get).tree
-    let anc ← liftR (t.ClosestNamedAncestor namedInfo sc)
-    let expr := match pathExpr.data with
-      | some off => sliceBytes d off pathExpr.len
-      | none => []
-    let targetIndex ← liftR (t.Find anc expr)
-    if targetIndex = invalidIndex then return .failed
-    let target ← objectAt targetIndex
-    let curObj ← newObject opIntResolvedNamePath
-    updObj curObj fun o => { o with amlOffset := curOffset }
-    updObj curObj fun o => { o with value := .idx targetIndex }
-    let sc ← derefP (← scopeCurrent)
-    tree (·.append sc curObj)
-    let targetO ← getObj (← derefP target)
-    if targetO.opcode ≠ opMethod then return .ok
-    updObj curObj fun o => { o with opcode := opIntMethodCall }
-    updObj curObj fun o => { o with infoIndex := pOpcodeTableIndex opIntMethodCall true }
-    scopeEnter (← getObj curObj).index
-    let t := (← get).tree
-    let flagsObj ← derefP (← liftR (t.ArgAt target 1))
-    let argCount ← match (← getObj flagsObj).value with
-      | .u64 v => pure (v &&& 0x7)
-      | _ => throw .panic
-    if !(← methodArgsLoop d f argCount) then
-      scopeExit
-      return .failed
-    scopeExit
-    return .ok
+      let targetO ← getObj (← derefP target)
+      if targetO.opcode ≠ opMethod then pure .ok else do
+      updObj curObj fun o => { o with opcode := opIntMethodCall }
+      updObj curObj fun o => { o with infoIndex := pOpcodeTableIndex opIntMethodCall true }
+      scopeEnter (← getObj curObj).index
+      let t ← getTree
+      let flagsObj ← derefP (← liftR (t.ArgAt target 1))
+      let argCount := (← u64Value flagsObj) &&& 0x7
+      if !(← methodArgsLoop d f argCount) then do
+        scopeExit
+        pure .failed
+      else do
+        scopeExit
+        pure .ok
 
 /-- `for argIndex := 0; argIndex < argCount; argIndex++ { parseNextObject() }` — `false` = failed -/
 def methodArgsLoop (d : Bytes) : Nat → Nat → P Bool
   | 0, _ => throw .outOfFuel
   | _+1, 0 => pure true
   | f+1, n+1 => do
-    if (← parseNextObject d f) ≠ .ok then return false
-    methodArgsLoop d f n
+    if (← parseNextObject d f) ≠ .ok then pure false
+    else methodArgsLoop d f n
 
 /-- `parseStrictTermArg(curObj)` -/
 def parseStrictTermArg (d : Bytes) : Nat → Nat → P (Option Nat × PRes)
   | 0, _ => throw .outOfFuel
   | f+1, curObj => do
     let curOffset ← lex offset
-    let (nextOp, res) ← lex (peekNextOpcode d)
-    if res ≠ .ok then
+    let opr ← lex (peekNextOpcode d)
+    if opr.2 ≠ .ok then do
       scopeEnter (← getObj curObj).index
       let res ← parseNamePathOrMethodCall d f
       scopeExit
-      let mut termObj : Option Nat := none
-      if res = .ok then
-        termObj ← objectAt (← getObj curObj).lastArgIndex
-        let t ← derefP termObj
-        tree (·.detach curObj t)
-      if (← lex eof) then popPkgEnd d
-      return (termObj, res)
-    if !pOpIsType2 nextOp ∧ !pOpIsDataObject nextOp ∧ !pOpIsArg nextOp then return (none, .failed)
-    let _ ← lex (nextOpcode d)
-    let termObj ← newObject nextOp
-    updObj termObj fun o => { o with amlOffset := curOffset }
-    tree (·.append curObj termObj)
-    let res ← parseObjectArgs d f termObj
-    tree (·.detach curObj termObj)
-    if (← lex eof) then popPkgEnd d
-    return (some termObj, res)
+      let termObj ←
+        if res = .ok then do
+          let termObj ← objectAt (← getObj curObj).lastArgIndex
+          let t ← derefP termObj
+          tree (·.detach curObj t)
+          pure termObj
+        else pure none
+      if (← lex eof) then popPkgEnd d else pure ()
+      pure (termObj, res)
+    else if !pOpIsType2 opr.1 ∧ !pOpIsDataObject opr.1 ∧ !pOpIsArg opr.1 then pure (none, .failed)
+    else do
+      let _ ← lex (nextOpcode d)
+      let termObj ← newObject opr.1
+      updObj termObj fun o => { o with amlOffset := curOffset }
+      tree (·.append curObj termObj)
+      let res ← parseObjectArgs d f termObj
+      tree (·.detach curObj termObj)
+      if (← lex eof) then popPkgEnd d else pure ()
+      pure (some termObj, res)
 
 /-- `parseTarget()` -/
 def parseTarget (d : Bytes) : Nat → P (Option Nat × PRes)
   | 0 => throw .outOfFuel
   | f+1 => do
     let origOffset ← lex offset
-    let (nextOp, res) ← lex (nextOpcode d)
-    if res = .ok then
-      if nextOp = opZero then return (none, .ok)
-      else if pOpIsArg nextOp ∨ nextOp = opRefOf ∨ nextOp = opDerefOf ∨ nextOp = opIndex ∨ nextOp = opDebug then
-        let obj ← newObject nextOp
+    let opr ← lex (nextOpcode d)
+    if opr.2 = .ok then do
+      if opr.1 = opZero then pure (none, .ok)
+      else if pOpIsArg opr.1 ∨ opr.1 = opRefOf ∨ opr.1 = opDerefOf ∨ opr.1 = opIndex ∨ opr.1 = opDebug then do
+        let obj ← newObject opr.1
         updObj obj fun o => { o with amlOffset := origOffset }
-        return (some obj, ← parseObjectArgs d f obj)
-      else return (none, .failed)
-    lex (setOffset d origOffset)
-    let curObj ← newObject opIntNamePath
-    updObj curObj fun o => { o with amlOffset := origOffset }
-    let (sl, res) ← lex (parseNameString d)
-    updObj curObj fun o => { o with value := sliceVal sl }
-    return (some curObj, res)
+        let res ← parseObjectArgs d f obj
+        pure (some obj, res)
+      else pure (none, .failed)
+    else do
+      lex (setOffset d origOffset)
+      let curObj ← newObject opIntNamePath
+      updObj curObj fun o => { o with amlOffset := origOffset }
+      let res ← setNameValue d curObj
+      pure (some curObj, res)
 
 end
 
@@ -488,29 +588,32 @@ end
 def objectListInner (d : Bytes) (fuel : Nat) : Nat → P Bool
   | 0 => throw .outOfFuel
   | n+1 => do
-    if (← lex eof) then return true
-    if (← parseNextObject d fuel) ≠ .ok then return false
-    objectListInner d fuel n
+    if (← lex eof) then pure true
+    else if (← parseNextObject d fuel) ≠ .ok then pure false
+    else objectListInner d fuel n
 
 /-- `parseObjectList()` -/
 def parseObjectList (d : Bytes) (fuel : Nat) : Nat → P PRes
   | 0 => throw .outOfFuel
   | n+1 => do
-    if (← get).scopeStack.size = 0 then return .ok
-    if !(← objectListInner d fuel fuel) then return .failed
-    let s ← get
-    if s.pkgEndStack.size = s.scopeStack.size then scopeExit
-    popPkgEnd d
-    parseObjectList d fuel n
+    if (← stackSizes).2 = 0 then pure .ok
+    else if !(← objectListInner d fuel fuel) then pure .failed
+    else do
+      let sz ← stackSizes
+      if sz.1 = sz.2 then scopeExit else pure ()
+      popPkgEnd d
+      parseObjectList d fuel n
 
 /-- `attachSiblingsAsArgs(parentObj, targetObj, numArgs, useParentSiblings)` from `siblingIndex` -/
 def attachSiblingsAsArgs (parentObj targetObj : Nat) (useParentSiblings : Bool) : Nat → Nat → P PRes
   | 0, _ => pure .ok
-  | numArgs+1, siblingIndex => do
-    let mut siblingIndex := siblingIndex
-    if siblingIndex = invalidIndex ∧ useParentSiblings then
-      siblingIndex := (← getObj parentObj).nextSiblingIndex
-    if siblingIndex = invalidIndex then return .failed
+  | numArgs+1, siblingIndex0 => do
+    let siblingIndex ←
+      if siblingIndex0 = invalidIndex ∧ useParentSiblings then do
+        let po ← getObj parentObj
+        pure po.nextSiblingIndex
+      else pure siblingIndex0
+    if siblingIndex = invalidIndex then pure .failed else do
     let siblingObj ← derefP (← objectAt siblingIndex)
     let so ← getObj siblingObj
     let realParent ← derefP (← objectAt so.parentIndex)
@@ -527,63 +630,125 @@ def firstTermArg (info : Nat) : Nat → Nat → Nat → P Nat
       if a = argTypeTermArg ∨ a = argTypeDataRefObj then pure i else firstTermArg info n (i + 1) argCount
     else pure i
 
+/-- `NumArgs(obj)` on the current tree -/
+def numArgs (obj : Nat) : P Nat := do
+  let t ← getTree
+  liftR (t.NumArgs (some obj))
+
+/-- `obj.prevSiblingIndex` (the loop increment of the reverse argument loops) -/
+def prevOf (obj : Nat) : P Nat := do
+  let o ← getObj obj
+  pure o.prevSiblingIndex
+
+/-- `obj.nextSiblingIndex` -/
+def nextOf (obj : Nat) : P Nat := do
+  let o ← getObj obj
+  pure o.nextSiblingIndex
+
+/-- the body of one iteration of the `connectNamedObjArgs` loop after the recursive call:
+`.inl res` = `return res`, `.inr ()` = `continue`/next -/
+def connectNamedStep (d : Bytes) (obj argObj : Nat) : P (Sum PRes Unit) := do
+  let ao ← getObj argObj
+  let flags ← optP (opFlags ao.infoIndex)
+  if !hasFlag flags flagNamed ∨ ao.tableHandle ≠ (← tableHandle) ∨ ao.firstArgIndex = invalidIndex ∨
+      ao.opcode = opIntScopeBlock then pure (.inr ())
+  else do
+    let first ← derefP (← objectAt ao.firstArgIndex)
+    match valBytes d (← getObj first).value with
+    | none => pure (.inl .failed)
+    | some nb =>
+      if nb.2.1 < amlNameLen then pure (.inl .failed) else do
+      updObj argObj fun o => { o with name := Name.ofList (nb.2.2.drop (nb.2.1 - amlNameLen)) }
+      let argCount ← optP (opArgCount ao.infoIndex)
+      let termArgIndex ← firstTermArg ao.infoIndex argCount 0 argCount
+      let n ← numArgs argObj
+      if n = argCount ∨ termArgIndex ≥ argCount then pure (.inr ())
+      else if (← attachSiblingsAsArgs obj argObj false (argCount - termArgIndex) (← nextOf argObj)) ≠ .ok then
+        pure (.inl .failed)
+      else pure (.inr ())
+
 mutual
 /-- `connectNamedObjArgs(objIndex)` -/
 def connectNamedObjArgs (d : Bytes) : Nat → Nat → P PRes
   | 0, _ => throw .outOfFuel
   | f+1, objIndex => do
     let obj ← derefP (← objectAt objIndex)
-    connectNamedLoop d f obj (← getObj obj).lastArgIndex
+    let o ← getObj obj
+    connectNamedLoop d f obj o.lastArgIndex
 
 /-- the reverse argument loop of `connectNamedObjArgs` from `argIndex` -/
 def connectNamedLoop (d : Bytes) : Nat → Nat → Nat → P PRes
   | 0, _, _ => throw .outOfFuel
   | f+1, obj, argIndex => do
-    if argIndex = invalidIndex then return .ok
+    if argIndex = invalidIndex then pure .ok else do
     let argObj ← derefP (← objectAt argIndex)
-    if (← connectNamedObjArgs d f (← getObj argObj).index) ≠ .ok then return .failed
     let ao ← getObj argObj
-    let flags ← optP (opFlags ao.infoIndex)
-    if !hasFlag flags flagNamed ∨ ao.tableHandle ≠ (← tableHandle) ∨ ao.firstArgIndex = invalidIndex ∨
-        ao.opcode = opIntScopeBlock then
-      return ← connectNamedLoop d f obj (← getObj argObj).prevSiblingIndex
-    let first ← derefP (← objectAt ao.firstArgIndex)
-    match valBytes d (← getObj first).value with
-    | none => return .failed
-    | some (_, len, bytes) =>
-      if len < amlNameLen then return .failed
-      updObj argObj fun o => { o with name := Name.ofList (bytes.drop (len - amlNameLen)) }
-      let argCount ← optP (opArgCount ao.infoIndex)
-      let termArgIndex ← firstTermArg ao.infoIndex argCount 0 argCount
-      let t := (← get).tree
-      let numArgs ← liftR (t.NumArgs (some argObj))
-      if numArgs = argCount ∨ termArgIndex ≥ argCount then
-        return ← connectNamedLoop d f obj (← getObj argObj).prevSiblingIndex
-      if (← attachSiblingsAsArgs obj argObj false (argCount - termArgIndex) (← getObj argObj).nextSiblingIndex) ≠ .ok then
-        return .failed
-      connectNamedLoop d f obj (← getObj argObj).prevSiblingIndex
+    if (← connectNamedObjArgs d f ao.index) ≠ .ok then pure .failed else do
+    match ← connectNamedStep d obj argObj with
+    | .inl res => pure res
+    | .inr _ => connectNamedLoop d f obj (← prevOf argObj)
 end
 
 /-- the loop that looks for the `pOpIntScopeBlock` nested in a scoped object; `none` = not found -/
 def findScopeBlock : Nat → Nat → P (Option Nat)
   | 0, _ => throw .outOfFuel
   | f+1, targetIndex => do
-    if targetIndex = invalidIndex then return none
+    if targetIndex = invalidIndex then pure none else do
     let nextObj ← derefP (← objectAt targetIndex)
     let no ← getObj nextObj
-    if no.opcode = opIntScopeBlock then return some nextObj
-    findScopeBlock f no.nextSiblingIndex
+    if no.opcode = opIntScopeBlock then pure (some nextObj)
+    else findScopeBlock f no.nextSiblingIndex
+
+/-- "Unless the new parent is an pOpIntScopeBlock it will contain a nested pOpIntScopeBlock":
+the scope block to attach to, `none` = "resolved to non-scope object" -/
+def scopeBlockOf (fuel targetObj : Nat) : P (Option Nat) := do
+  let to ← getObj targetObj
+  if to.opcode ≠ opIntScopeBlock then findScopeBlock fuel to.firstArgIndex else pure (some targetObj)
 
 /-- `for siblingIndex := firstArgIndex; …; { detach(contentsObj, argObj); append(targetObj, argObj) }` -/
 def moveContents (contentsObj targetObj : Nat) : Nat → Nat → P Unit
   | 0, _ => throw .outOfFuel
   | f+1, siblingIndex => do
-    if siblingIndex = invalidIndex then return
+    if siblingIndex = invalidIndex then pure () else do
     let argObj ← derefP (← objectAt siblingIndex)
-    let next := (← getObj argObj).nextSiblingIndex
+    let next ← nextOf argObj
     tree (·.detach contentsObj argObj)
     tree (·.append targetObj argObj)
     moveContents contentsObj targetObj f next
+
+/-- `x.value.([]byte)` (panicking type assertion): the bytes -/
+def bytesValue (d : Bytes) (i : Nat) : P (List UInt8) := do
+  match valBytes d (← getObj i).value with
+  | some nb => pure nb.2.2
+  | none => throw .panic
+
+/-- counters of the resolve loop -/
+def passCounters : P (Nat × Nat) := fun s => pure ((s.resolvePasses, s.relocatedObjects), s)
+
+/-- the `pOpScope` case of `mergeScopeDirectives` for the scope directive `obj` (its first arg
+exists): `.inl res` = `return res`, `.inr firstArgIndex` = go on with the moved contents -/
+def mergeScope (d : Bytes) (fuel obj : Nat) : P (Sum PRes Nat) := do
+  let o ← getObj obj
+  let nameObj ← derefP (← objectAt o.firstArgIndex)
+  let targetName ← bytesValue d nameObj
+  let t ← getTree
+  let targetIndex ← liftR (t.Find o.parentIndex targetName)
+  if targetIndex = invalidIndex then do
+    let pc ← passCounters
+    if pc.1 > 1 ∧ pc.2 = 0 then pure (.inl .failed) else pure (.inl .requireExtraPass)
+  else do
+    let target0 ← derefP (← objectAt targetIndex)
+    match ← scopeBlockOf fuel target0 with
+    | none => pure (.inl .failed)
+    | some targetObj => do
+      let contentsObj ← derefP (← objectAt (← getObj obj).lastArgIndex)
+      let firstArgIndex := (← getObj contentsObj).firstArgIndex
+      moveContents contentsObj targetObj fuel firstArgIndex
+      tree (·.free nameObj)
+      tree (·.free contentsObj)
+      tree (·.free obj)
+      modify fun s => { s with mergedScopes := u32 (s.mergedScopes + 1) }
+      pure (.inr firstArgIndex)
 
 mutual
 /-- `mergeScopeDirectives(objIndex)` -/
@@ -592,46 +757,25 @@ def mergeScopeDirectives (d : Bytes) : Nat → Nat → P PRes
   | f+1, objIndex => do
     let obj ← derefP (← objectAt objIndex)
     let o ← getObj obj
-    let mut firstArgIndex := o.firstArgIndex
-    if objIndex = 0 then modify fun s => { s with mergedScopes := 0 }
+    if objIndex = 0 then modify fun s => { s with mergedScopes := 0 } else pure ()
     let flags ← optP (opFlags o.infoIndex)
-    if hasFlag flags flagExecutable then return .ok
-    if o.opcode = opScope ∧ o.tableHandle = (← tableHandle) then
-      if o.firstArgIndex = invalidIndex then return .failed
-      let nameObj ← derefP (← objectAt o.firstArgIndex)
-      let targetName ← match valBytes d (← getObj nameObj).value with
-        | some (_, _, bytes) => pure bytes
-        | none => throw .panic
-      let t := (← get).tree
-      let targetIndex ← liftR (t.Find o.parentIndex targetName)
-      if targetIndex = invalidIndex then
-        let s ← get
-        if s.resolvePasses > 1 ∧ s.relocatedObjects = 0 then return .failed
-        return .requireExtraPass
-      let mut targetObj ← derefP (← objectAt targetIndex)
-      let to ← getObj targetObj
-      if to.opcode ≠ opIntScopeBlock then
-        match ← findScopeBlock f to.firstArgIndex with
-        | none => return .failed
-        | some sb => targetObj := sb
-      let contentsObj ← derefP (← objectAt (← getObj obj).lastArgIndex)
-      firstArgIndex := (← getObj contentsObj).firstArgIndex
-      moveContents contentsObj targetObj f firstArgIndex
-      tree (·.free nameObj)
-      tree (·.free contentsObj)
-      tree (·.free obj)
-      modify fun s => { s with mergedScopes := u32 (s.mergedScopes + 1) }
-    mergeLoop d f firstArgIndex .ok
+    if hasFlag flags flagExecutable then pure .ok
+    else if o.opcode = opScope ∧ o.tableHandle = (← tableHandle) then do
+      if o.firstArgIndex = invalidIndex then pure .failed else do
+      match ← mergeScope d f obj with
+      | .inl res => pure res
+      | .inr firstArgIndex => mergeLoop d f firstArgIndex .ok
+    else mergeLoop d f o.firstArgIndex .ok
 
 /-- the recursion over the children of `mergeScopeDirectives` -/
 def mergeLoop (d : Bytes) : Nat → Nat → PRes → P PRes
   | 0, _, _ => throw .outOfFuel
   | f+1, siblingIndex, res => do
-    if siblingIndex = invalidIndex then return res
+    if siblingIndex = invalidIndex then pure res else do
     let argObj ← derefP (← objectAt siblingIndex)
     let ao ← getObj argObj
     match ← mergeScopeDirectives d f ao.index with
-    | .failed => return .failed
+    | .failed => pure .failed
     | .requireExtraPass => mergeLoop d f ao.nextSiblingIndex .requireExtraPass
     | _ => mergeLoop d f ao.nextSiblingIndex res
 end
@@ -640,10 +784,46 @@ end
 def isAncestorOrSelf (obj : Nat) : Nat → Nat → P Bool
   | 0, _ => throw .outOfFuel
   | f+1, ancestorIndex => do
-    if ancestorIndex = invalidIndex then return false
-    if ancestorIndex = (← getObj obj).index then return true
+    if ancestorIndex = invalidIndex then pure false else do
+    let o ← getObj obj
+    if ancestorIndex = o.index then pure true else do
     let a ← derefP (← objectAt ancestorIndex)
-    isAncestorOrSelf obj f (← getObj a).parentIndex
+    let ao ← getObj a
+    isAncestorOrSelf obj f ao.parentIndex
+
+/-- the relocation of the named object `obj` whose namepath `(off, len)` is longer than one segment:
+`.inl res` = `return res`, `.inr ()` = go on with the children -/
+def relocateOne (d : Bytes) (fuel obj off len : Nat) (bytes : List UInt8) : P (Sum PRes Unit) := do
+  let nameIndex := len - amlNameLen
+  let t ← getTree
+  let anc ← liftR (t.ClosestNamedAncestor namedInfo (some obj))
+  let targetIndex ← liftR (t.Find anc (bytes.take nameIndex))
+  if targetIndex = invalidIndex then do
+    let pc ← passCounters
+    if pc.1 > maxResolvePasses then pure (.inl .failed) else pure (.inl .requireExtraPass)
+  else do
+    let target0 ← derefP (← objectAt targetIndex)
+    match ← scopeBlockOf fuel target0 with
+    | none => pure (.inl .failed)
+    | some targetObj => do
+      let tobj ← getObj targetObj
+      if (← isAncestorOrSelf obj fuel tobj.index) then pure (.inl .failed) else do
+      let parent ← derefP (← objectAt (← getObj obj).parentIndex)
+      tree (·.detach parent obj)
+      tree (·.append targetObj obj)
+      let first ← derefP (← objectAt (← getObj obj).firstArgIndex)
+      updObj first fun fo => { fo with value := .bytes (off + nameIndex) (len - nameIndex) }
+      modify fun s => { s with relocatedObjects := u32 (s.relocatedObjects + 1) }
+      pure (.inr ())
+
+/-- the named-object case of `relocateNamedObjects` -/
+def relocateNamed (d : Bytes) (fuel obj : Nat) : P (Sum PRes Unit) := do
+  let o ← getObj obj
+  let first ← derefP (← objectAt o.firstArgIndex)
+  match valBytes d (← getObj first).value with
+  | none => pure (.inl .failed)
+  | some nb =>
+    if nb.2.1 > amlNameLen then relocateOne d fuel obj nb.1 nb.2.1 nb.2.2 else pure (.inr ())
 
 mutual
 /-- `relocateNamedObjects(objIndex)` -/
@@ -653,46 +833,24 @@ def relocateNamedObjects (d : Bytes) : Nat → Nat → P PRes
     let obj ← derefP (← objectAt objIndex)
     let o ← getObj obj
     let flags ← optP (opFlags o.infoIndex)
-    if objIndex = 0 then modify fun s => { s with relocatedObjects := 0 }
-    if hasFlag flags flagExecutable then return .ok
-    if hasFlag flags flagNamed ∧ o.firstArgIndex ≠ invalidIndex ∧ o.tableHandle = (← tableHandle) ∧
-        o.opcode ≠ opIntScopeBlock then
-      let first ← derefP (← objectAt o.firstArgIndex)
-      match valBytes d (← getObj first).value with
-      | none => return .failed
-      | some (off, len, bytes) =>
-        if len > amlNameLen then
-          let nameIndex := len - amlNameLen
-          let t := (← get).tree
-          let anc ← liftR (t.ClosestNamedAncestor namedInfo (some obj))
-          let targetIndex ← liftR (t.Find anc (bytes.take nameIndex))
-          if targetIndex = invalidIndex then
-            if (← get).resolvePasses > maxResolvePasses then return .failed
-            return .requireExtraPass
-          let mut targetObj ← derefP (← objectAt targetIndex)
-          let to ← getObj targetObj
-          if to.opcode ≠ opIntScopeBlock then
-            match ← findScopeBlock f to.firstArgIndex with
-            | none => return .failed
-            | some sb => targetObj := sb
-          if (← isAncestorOrSelf obj f (← getObj targetObj).index) then return .failed
-          let parent ← derefP (← objectAt (← getObj obj).parentIndex)
-          tree (·.detach parent obj)
-          tree (·.append targetObj obj)
-          let first ← derefP (← objectAt (← getObj obj).firstArgIndex)
-          updObj first fun fo => { fo with value := .bytes (off + nameIndex) (len - nameIndex) }
-          modify fun s => { s with relocatedObjects := u32 (s.relocatedObjects + 1) }
-    relocateLoop d f (← getObj obj).firstArgIndex .ok
+    if objIndex = 0 then modify fun s => { s with relocatedObjects := 0 } else pure ()
+    if hasFlag flags flagExecutable then pure .ok
+    else if hasFlag flags flagNamed ∧ o.firstArgIndex ≠ invalidIndex ∧ o.tableHandle = (← tableHandle) ∧
+        o.opcode ≠ opIntScopeBlock then do
+      match ← relocateNamed d f obj with
+      | .inl res => pure res
+      | .inr _ => relocateLoop d f (← getObj obj).firstArgIndex .ok
+    else relocateLoop d f o.firstArgIndex .ok
 
 /-- the recursion over the children of `relocateNamedObjects` -/
 def relocateLoop (d : Bytes) : Nat → Nat → PRes → P PRes
   | 0, _, _ => throw .outOfFuel
   | f+1, siblingIndex, res => do
-    if siblingIndex = invalidIndex then return res
+    if siblingIndex = invalidIndex then pure res else do
     let argObj ← derefP (← objectAt siblingIndex)
     let ao ← getObj argObj
     match ← relocateNamedObjects d f ao.index with
-    | .failed => return .failed
+    | .failed => pure .failed
     | .requireExtraPass => relocateLoop d f ao.nextSiblingIndex .requireExtraPass
     | _ => relocateLoop d f ao.nextSiblingIndex res
 end
@@ -701,9 +859,24 @@ end
 def popAllPkgEnds (d : Bytes) : Nat → P Unit
   | 0 => pure ()
   | n+1 => do
-    if (← get).pkgEndStack.size = 0 then return
+    if (← stackSizes).1 = 0 then pure () else do
     popPkgEnd d
     popAllPkgEnds d n
+
+/-- the deferred-object case of `parseDeferredBlocks` -/
+def parseDeferred (d : Bytes) (fuel obj : Nat) : P PRes := do
+  let o ← getObj obj
+  modify fun s => { s with allBlocks := true }
+  let se ← (fun s => pure (s.streamEnd, s) : P Nat)
+  let _ ← lex (setPkgEnd d se)
+  lex (setOffset d (u32 (o.amlOffset + 1)))
+  if o.opcode > 0xff then do
+    let _ ← lex (readByte d)
+    pure ()
+  else pure ()
+  if (← parseObjectArgs d fuel obj) ≠ .ok then pure .failed else do
+  popAllPkgEnds d ((← stackSizes).1 + 1)
+  pure .ok
 
 mutual
 /-- `parseDeferredBlocks(objIndex)` -/
@@ -713,26 +886,31 @@ def parseDeferredBlocks (d : Bytes) (fuel : Nat) : Nat → Nat → P PRes
     let obj ← derefP (← objectAt objIndex)
     let o ← getObj obj
     let flags ← optP (opFlags o.infoIndex)
-    if hasFlag flags flagDeferParsing ∧ o.tableHandle = (← tableHandle) then
-      modify fun s => { s with allBlocks := true }
-      let _ ← lex (setPkgEnd d (← get).streamEnd)
-      lex (setOffset d (u32 (o.amlOffset + 1)))
-      if o.opcode > 0xff then
-        let _ ← lex (readByte d)
-      if (← parseObjectArgs d fuel obj) ≠ .ok then return .failed
-      popAllPkgEnds d ((← get).pkgEndStack.size + 1)
-      return .ok
-    deferredLoop d fuel f o.firstArgIndex
+    if hasFlag flags flagDeferParsing ∧ o.tableHandle = (← tableHandle) then parseDeferred d fuel obj
+    else deferredLoop d fuel f o.firstArgIndex
 
 /-- the recursion over the children of `parseDeferredBlocks` -/
 def deferredLoop (d : Bytes) (fuel : Nat) : Nat → Nat → P PRes
   | 0, _ => throw .outOfFuel
   | f+1, argIndex => do
-    if argIndex = invalidIndex then return .ok
-    if (← parseDeferredBlocks d fuel f argIndex) ≠ .ok then return .failed
-    let a ← derefP (← objectAt argIndex)
-    deferredLoop d fuel f (← getObj a).nextSiblingIndex
+    if argIndex = invalidIndex then pure .ok
+    else if (← parseDeferredBlocks d fuel f argIndex) ≠ .ok then pure .failed
+    else do
+      let a ← derefP (← objectAt argIndex)
+      deferredLoop d fuel f (← nextOf a)
 end
+
+/-- one iteration of the `connectNonNamedObjArgs` loop after the recursive call: `false` = failed -/
+def connectNonNamedStep (obj argObj : Nat) : P Bool := do
+  let ao ← getObj argObj
+  let flags ← optP (opFlags ao.infoIndex)
+  if hasFlag flags flagNamed ∨ ao.tableHandle ≠ (← tableHandle) then pure true else do
+  let argCount ← optP (opArgCount ao.infoIndex)
+  let termArgIndex ← firstTermArg ao.infoIndex argCount 0 argCount
+  let n ← numArgs argObj
+  if termArgIndex ≥ argCount ∨ n > termArgIndex then pure true
+  else if (← attachSiblingsAsArgs obj argObj true (argCount - termArgIndex) (← nextOf argObj)) = .failed then pure false
+  else pure true
 
 mutual
 /-- `connectNonNamedObjArgs(objIndex)` -/
@@ -740,28 +918,58 @@ def connectNonNamedObjArgs : Nat → Nat → P PRes
   | 0, _ => throw .outOfFuel
   | f+1, objIndex => do
     let obj ← derefP (← objectAt objIndex)
-    connectNonNamedLoop f obj (← getObj obj).lastArgIndex
+    let o ← getObj obj
+    connectNonNamedLoop f obj o.lastArgIndex
 
 def connectNonNamedLoop : Nat → Nat → Nat → P PRes
   | 0, _, _ => throw .outOfFuel
   | f+1, obj, argIndex => do
-    if argIndex = invalidIndex then return .ok
+    if argIndex = invalidIndex then pure .ok else do
     let argObj ← derefP (← objectAt argIndex)
-    if (← connectNonNamedObjArgs f (← getObj argObj).index) ≠ .ok then return .failed
     let ao ← getObj argObj
-    let flags ← optP (opFlags ao.infoIndex)
-    if hasFlag flags flagNamed ∨ ao.tableHandle ≠ (← tableHandle) then
-      return ← connectNonNamedLoop f obj (← getObj argObj).prevSiblingIndex
-    let argCount ← optP (opArgCount ao.infoIndex)
-    let termArgIndex ← firstTermArg ao.infoIndex argCount 0 argCount
-    let t := (← get).tree
-    let numArgs ← liftR (t.NumArgs (some argObj))
-    if termArgIndex ≥ argCount ∨ numArgs > termArgIndex then
-      return ← connectNonNamedLoop f obj (← getObj argObj).prevSiblingIndex
-    if (← attachSiblingsAsArgs obj argObj true (argCount - termArgIndex) (← getObj argObj).nextSiblingIndex) = .failed then
-      return .failed
-    connectNonNamedLoop f obj (← getObj argObj).prevSiblingIndex
+    if (← connectNonNamedObjArgs f ao.index) ≠ .ok then pure .failed
+    else if !(← connectNonNamedStep obj argObj) then pure .failed
+    else connectNonNamedLoop f obj (← prevOf argObj)
 end
+
+/-- `argObj.opcode = op; argObj.infoIndex = pOpcodeTableIndex(op, true)` -/
+def mutateOpcode (argObj op : Nat) : P Unit := do
+  updObj argObj fun o => { o with opcode := op }
+  updObj argObj fun o => { o with infoIndex := pOpcodeTableIndex op true }
+
+/-- the `case pOpMethod:` of `resolveMethodCalls`: `false` = failed -/
+def resolveToMethod (obj argObj resolvedObj : Nat) : P Bool := do
+  let ro ← getObj resolvedObj
+  mutateOpcode argObj opIntMethodCall
+  updObj argObj fun o => { o with value := .idx ro.index }
+  let t ← getTree
+  match ← liftR (t.ArgAt (some resolvedObj) 1) with
+  | none => pure false
+  | some methodFlagsObj =>
+    match (← getObj methodFlagsObj).value with
+    | .u64 argCount => do
+      if (← attachSiblingsAsArgs obj argObj true (argCount &&& 0x7) (← nextOf argObj)) ≠ .ok then pure false
+      else pure true
+    | _ => pure false
+
+/-- one iteration of the `resolveMethodCalls` loop after the recursive call: `false` = failed -/
+def resolveStep (d : Bytes) (obj argObj : Nat) : P Bool := do
+  let ao ← getObj argObj
+  if ao.opcode ≠ opIntNamePathOrMethodCall ∨ ao.tableHandle ≠ (← tableHandle) then pure true else do
+  let expr ← bytesValue d argObj
+  let t ← getTree
+  let targetIndex ← liftR (t.Find ao.parentIndex expr)
+  if targetIndex = invalidIndex then do
+    mutateOpcode argObj opIntNamePath
+    pure true
+  else do
+    let resolvedObj ← derefP (← objectAt targetIndex)
+    let ro ← getObj resolvedObj
+    if ro.opcode = opMethod then resolveToMethod obj argObj resolvedObj
+    else do
+      mutateOpcode argObj opIntResolvedNamePath
+      updObj argObj fun o => { o with value := .idx ro.index }
+      pure true
 
 mutual
 /-- `resolveMethodCalls(objIndex)` -/
@@ -769,46 +977,18 @@ def resolveMethodCalls (d : Bytes) : Nat → Nat → P PRes
   | 0, _ => throw .outOfFuel
   | f+1, objIndex => do
     let obj ← derefP (← objectAt objIndex)
-    resolveLoop d f obj (← getObj obj).lastArgIndex
+    let o ← getObj obj
+    resolveLoop d f obj o.lastArgIndex
 
 def resolveLoop (d : Bytes) : Nat → Nat → Nat → P PRes
   | 0, _, _ => throw .outOfFuel
   | f+1, obj, argIndex => do
-    if argIndex = invalidIndex then return .ok
+    if argIndex = invalidIndex then pure .ok else do
     let argObj ← derefP (← objectAt argIndex)
-    if (← resolveMethodCalls d f (← getObj argObj).index) ≠ .ok then return .failed
     let ao ← getObj argObj
-    if ao.opcode ≠ opIntNamePathOrMethodCall ∨ ao.tableHandle ≠ (← tableHandle) then
-      return ← resolveLoop d f obj (← getObj argObj).prevSiblingIndex
-    let expr ← match valBytes d ao.value with
-      | some (_, _, bytes) => pure bytes
-      | none => throw .panic
-    let t := (← get).tree
-    let targetIndex ← liftR (t.Find ao.parentIndex expr)
-    if targetIndex = invalidIndex then
-      updObj argObj fun o => { o with opcode := opIntNamePath }
-      updObj argObj fun o => { o with infoIndex := pOpcodeTableIndex opIntNamePath true }
-    else
-      let resolvedObj ← derefP (← objectAt targetIndex)
-      let ro ← getObj resolvedObj
-      if ro.opcode = opMethod then
-        updObj argObj fun o => { o with opcode := opIntMethodCall }
-        updObj argObj fun o => { o with infoIndex := pOpcodeTableIndex opIntMethodCall true }
-        updObj argObj fun o => { o with value := .idx ro.index }
-        let t := (← get).tree
-        match ← liftR (t.ArgAt (some resolvedObj) 1) with
-        | none => return .failed
-        | some methodFlagsObj =>
-          match (← getObj methodFlagsObj).value with
-          | .u64 argCount =>
-            if (← attachSiblingsAsArgs obj argObj true (argCount &&& 0x7) (← getObj argObj).nextSiblingIndex) ≠ .ok then
-              return .failed
-          | _ => return .failed
-      else
-        updObj argObj fun o => { o with opcode := opIntResolvedNamePath }
-        updObj argObj fun o => { o with infoIndex := pOpcodeTableIndex opIntResolvedNamePath true }
-        updObj argObj fun o => { o with value := .idx ro.index }
-    resolveLoop d f obj (← getObj argObj).prevSiblingIndex
+    if (← resolveMethodCalls d f ao.index) ≠ .ok then pure .failed
+    else if !(← resolveStep d obj argObj) then pure .failed
+    else resolveLoop d f obj (← prevOf argObj)
 end
 
 /-- the `for ; ; p.resolvePasses++` loop of `ParseAML` — `false` = `errParsingAML` -/
@@ -816,12 +996,13 @@ def resolveLoopPasses (d : Bytes) (fuel : Nat) : Nat → P Bool
   | 0 => throw .outOfFuel
   | n+1 => do
     let mergeRes ← mergeScopeDirectives d fuel 0
-    if mergeRes = .failed then return false
+    if mergeRes = .failed then pure false else do
     let relocateRes ← relocateNamedObjects d fuel 0
-    if relocateRes = .failed then return false
-    if mergeRes = .ok ∧ relocateRes = .ok then return true
-    modify fun s => { s with resolvePasses := u32 (s.resolvePasses + 1) }
-    resolveLoopPasses d fuel n
+    if relocateRes = .failed then pure false
+    else if mergeRes = .ok ∧ relocateRes = .ok then pure true
+    else do
+      modify fun s => { s with resolvePasses := u32 (s.resolvePasses + 1) }
+      resolveLoopPasses d fuel n
 
 /-- `init(tableHandle, tableName, header)` -/
 def init (d : Bytes) (handle : Nat) : P Unit := do
@@ -829,20 +1010,22 @@ def init (d : Bytes) (handle : Nat) : P Unit := do
                            allBlocks := false, scopeStack := #[], pkgEndStack := #[] }
   modify fun s => { s with r := Reader.init d headerLen, streamEnd := d.size }
   let _ ← pushPkgEnd d d.size
+  pure ()
 
 /-- `ParseAML(tableHandle, tableName, header)`; `d` is the whole table (`header.Length` bytes);
 `true` = nil error, `false` = `errParsingAML` -/
 def parseAML (d : Bytes) (fuel : Nat) (handle : Nat) : P Bool := do
   init d handle
   scopeEnter 0
-  if (← parseObjectList d fuel fuel) = .failed then return false
-  if (← connectNamedObjArgs d fuel 0) ≠ .ok then return false
-  modify fun s => { s with resolvePasses := 1 }
-  if !(← resolveLoopPasses d fuel fuel) then return false
-  if (← parseDeferredBlocks d fuel fuel 0) ≠ .ok then return false
-  if (← resolveMethodCalls d fuel 0) ≠ .ok then return false
-  if (← connectNonNamedObjArgs fuel 0) ≠ .ok then return false
-  return true
+  if (← parseObjectList d fuel fuel) = .failed then pure false
+  else if (← connectNamedObjArgs d fuel 0) ≠ .ok then pure false
+  else do
+    modify fun s => { s with resolvePasses := 1 }
+    if !(← resolveLoopPasses d fuel fuel) then pure false
+    else if (← parseDeferredBlocks d fuel fuel 0) ≠ .ok then pure false
+    else if (← resolveMethodCalls d fuel 0) ≠ .ok then pure false
+    else if (← connectNonNamedObjArgs fuel 0) ≠ .ok then pure false
+    else pure true
 
 /-- the fuel the replay driver and the theorems use: linear in table length + objects present -/
 def fuelFor (d : Bytes) (t : ObjectTree) : Nat := 8 * (d.size + t.pool.size) + 64
